@@ -72,6 +72,11 @@ func vpRawCfg(c *Chain, ctx sdk.Context, oparams oracletypes.Params, a string) (
 		return cfg, true, true
 	}
 	tid := oparams.GetTokenIDFromAssetID(a)
+	if name, ok := vpGatewayTokens[a]; ok {
+		// registered through the gateway together with this oracle token (dom_votingpower_regtoken.go): the
+		// binding asset id -> token is what is under test there, so the token is found by its name
+		tid = vpTokenIDByName(oparams, name)
+	}
 	if tid > 0 {
 		if tr, found := c.App.OracleKeeper.GetPriceTRLatest(ctx, uint64(tid)); found {
 			if v, ok := new(big.Int).SetString(tr.Price, 10); ok && v.Sign() > 0 {
@@ -499,6 +504,9 @@ func domVotingPower(env *Env) error {
 	vpScenarioEmptyAssetList(env)
 	vpScenarioFailingAVS(env)  // dom_votingpower_multi.go
 	vpScenarioSlashedSelf(env) // dom_votingpower_multi.go
+	for k := 0; k < env.Int("gwtokens", 2); k++ {
+		vpScenarioGatewayToken(env, k) // dom_votingpower_regtoken.go
+	}
 	for hi := 0; hi < n; hi++ {
 		seed := env.Report.Seed*1000 + uint64(hi)
 		cfg := DefaultCfg(seed)
